@@ -27,7 +27,9 @@ BOUNDS = {
              'disk on a fake FS, redis and cloud on fake substrates), backoff '
              'delays symbolic reals >= 0 (0 included); plus schedule cells: '
              'flush() and a duplicate storage wait() announcement at symbolic '
-             'instants, bounded/unbounded pools, symbolic relay duration',
+             'instants, bounded/unbounded pools, symbolic relay duration; '
+             'one failing bookkeeping operation of the storage (each of the '
+             'first 6)',
     'thorough': '4 recipients x 3 attempts on all backends; 3 recipients x 4 '
                 'attempts; schedule cells with 2 messages',
 }
@@ -59,6 +61,10 @@ def cells(tier):
                     'shape': 'mapping-rev'})
         out.append({'kind': 'rounds', 'backend': 'shelf', 'n': 3, 'rounds': 2,
                     'shape': 'mapping'})
+        out.append({'kind': 'rounds', 'backend': 'dict', 'n': 2, 'rounds': 2,
+                    'shape': 'mapping', 'store_fault': 6})
+        out.append({'kind': 'rounds', 'backend': 'redis', 'n': 2, 'rounds': 2,
+                    'shape': 'sequence', 'store_fault': 6})
         # the same address at two positions of the envelope
         out.append({'kind': 'rounds', 'backend': 'dict', 'n': 3, 'rounds': 2,
                     'shape': 'mapping', 'dup': 1})
@@ -190,6 +196,26 @@ def run_rounds(cell):
         delays.append(d)
         return d
 
+    if cell.get('store_fault'):
+        # the k-th bookkeeping operation of the storage fails (for every k):
+        # whatever the queue then does, it must not attempt settled
+        # recipients again
+        nops = [0]
+        fail_at = api.choice('fail_op', cell['store_fault'])
+
+        def faulty(name):
+            orig = getattr(store, name)
+
+            def op(*a, **kw):
+                k = nops[0]
+                nops[0] += 1
+                if k == fail_at:
+                    raise IOError('storage operation %s failed' % name)
+                return orig(*a, **kw)
+            setattr(store, name, op)
+        for name in ('increment_attempts', 'set_timestamp',
+                     'set_recipients_delivered', 'remove'):
+            faulty(name)
     queue = Queue(store, relay, backoff=backoff,
                   bounce_factory=lambda env, reply: None)
     queue.start()
